@@ -42,6 +42,8 @@ var cmdMenu = []cmdFile{
 	{Name: "failtest.json", Content: `[{"op":"add","path":"/q","value":1},{"op":"test","path":"/q","value":2}]`},
 	{Name: "malformed.json", Content: `[{"op":"add","path":"/k","value":1}`},
 	{Name: "badop.json", Content: `[{"op":"frob","path":"/k"}]`},
+	{Name: "trailing.json", Content: `[{"op":"add","path":"/g","value":1}] x`},
+	{Name: "twoarrays.json", Content: `[{"op":"add","path":"/g","value":1}][{"op":"add","path":"/h","value":2}]`},
 	{Name: "missing.json", Missing: true},
 	{Name: "dir.json", Dir: true},
 	{Name: "empty.json", Content: ``},
@@ -288,7 +290,7 @@ func runCmdx(ctx *core.Ctx, tier string) {
 	if tier == "thorough" {
 		maxLen = 3
 	}
-	ctx.Rep.Rule = fmt.Sprintf("every list of 0..%d -p arguments (order and repetition included) over %d patch files {two non-commuting valid patches, one applicable only after the first, a move, a failing test, malformed JSON, unknown op, missing file, directory, empty file, empty patch, root-replacing patch} x %d stdin documents {object, object with whitespace, array, malformed, empty, scalar}, "+
+	ctx.Rep.Rule = fmt.Sprintf("every list of 0..%d -p arguments (order and repetition included) over %d patch files {two non-commuting valid patches, one applicable only after the first, a move, a failing test, malformed JSON (truncated; a complete patch followed by garbage; two arrays), unknown op, missing file, directory, empty file, empty patch, root-replacing patch} x %d stdin documents {object, object with whitespace, array, malformed, empty, scalar}, "+
 		"each run as a real process of the binary built from the working tree (v5 cmd and legacy cmd; lists of length <= 1 also with --patch-file=). Oracle: stdout must equal byte for byte the fold of the library's DecodePatch+Apply over the files in command-line order with exit 0 and the value must equal the reference evaluator's fold; "+
 		"if any file is unreadable/undecodable or any patch fails to apply: empty stdout, non-empty stderr, exit != 0. states = distinct (binary, stdin, expected outcome); non-trivial = runs with >= 2 patch files", len(cmdMenu), maxLen, len(cmdStdin))
 	ctx.Rep.Assume = append(ctx.Rep.Assume, "the expected bytes come from the library linked into the harness (same working tree as the binary); the library itself is judged by C01/C05/C15/C18",
